@@ -1,3 +1,318 @@
+// eng_c17.rs — C17: a rule that is not reproducible is reported, never silently accepted.
+// Injected fault: an undeclared input of a command changes between builds.
+
 use super::*;
-pub fn run_one(_cfg : &Config, _seed : u64, _k : u64, _stats : &mut Stats) -> Vec<Found> { vec![] }
-pub fn replay(_case : &Case) -> Vec<(String, String)> { vec![] }
+use super::super::hist::{ErrClass, oracle_c01};
+use super::super::model::{self, Outcome};
+use std::sync::Arc;
+use super::super::rt::FileMap;
+
+/* rules that read a file which is neither a declared source nor one of their own targets */
+fn hidden_rules(rules : &[SRule]) -> BTreeSet<usize>
+{
+    let mut s = BTreeSet::new();
+    for (i, r) in rules.iter().enumerate()
+    {
+        for l in r.lines.iter()
+        {
+            if let Line::Emit{ inputs, .. } = l
+            {
+                if inputs.iter().any(|x| !r.sources.contains(x) && !r.targets.contains(x))
+                {
+                    s.insert(i);
+                }
+            }
+        }
+    }
+    s
+}
+
+/* rules that have a rule of `roots` among their transitive prerequisites (roots excluded) */
+fn downstream_of(rules : &[SRule], roots : &BTreeSet<usize>) -> BTreeSet<usize>
+{
+    let owner = model::target_owner(rules).unwrap_or(BTreeMap::new());
+    let mut down : BTreeSet<usize> = BTreeSet::new();
+    loop
+    {
+        let mut changed = false;
+        for (i, r) in rules.iter().enumerate()
+        {
+            if down.contains(&i) { continue; }
+            let hit = r.sources.iter().any(|s| owner.get(s).map(|p| roots.contains(p) || down.contains(p)).unwrap_or(false));
+            if hit { down.insert(i); changed = true; }
+        }
+        if !changed { break; }
+    }
+    down
+}
+
+pub fn check_inv(inv : &Inv, runner : &Runner, is_last : bool, mut stats : Option<&mut Stats>) -> Vec<Violation>
+{
+    let mut out = vec![];
+    if !inv.is_build { return out; }
+    let actual = match inv.actual_errors() { Some(a) => a, None => return out };
+    let hidden = hidden_rules(&inv.rules);
+
+    // (a) which contradictions must be reported: rules whose command ran on sources for which the
+    //     harness holds a record, and whose outputs now differ from that record
+    let mut expected : Vec<Vec<String>> = vec![];
+    let mut contradicted_rules : BTreeSet<usize> = BTreeSet::new();
+    let mut open : BTreeMap<u16, (usize, Arc<FileMap>)> = BTreeMap::new();
+    for e in inv.res.events.iter()
+    {
+        match &e.kind
+        {
+            Ev::CmdStart{ script, workspace } => { if let Some(r) = inv.rule_of_script(script) { open.insert(e.tid, (r, workspace.clone())); } },
+            Ev::CmdEnd{ codes, .. } =>
+            {
+                if let Some((r, ws)) = open.remove(&e.tid)
+                {
+                    if !codes.iter().all(|c| *c == 0) { continue; }
+                    let rule = &inv.rules[r];
+                    let srcs : Option<Vec<Vec<u8>>> = rule.sorted_sources().iter().map(|s| ws.get(s).map(|(c, _)| (**c).clone())).collect();
+                    let srcs = match srcs { Some(s) => s, None => continue };
+                    if let Some(rec) = runner.record.get(&rule.identity()).and_then(|m| m.get(&srcs))
+                    {
+                        let differing : Vec<String> = rec.iter().filter(|(t, b)| inv.after.read(t).map(|a| *a != *b).unwrap_or(true)).map(|(t, _)| t.clone()).collect();
+                        if let Some(s) = stats.as_deref_mut()
+                        {
+                            s.inc("c17.forced_reexecutions_with_record");
+                            s.distinct.insert(H64::new().u64(rule.targets.len() as u64).u64(differing.len() as u64)
+                                .u64(rule.sorted_targets().iter().enumerate().map(|(i, t)| if differing.contains(t) { 1u64 << i } else { 0 }).sum())
+                                .u64(inv.before.is_file(&rule.sorted_targets()[0]) as u64).get());
+                        }
+                        if differing.len() > 0
+                        {
+                            if let Some(s) = stats.as_deref_mut() { s.inc("fault.undeclared_input_changed_output"); }
+                            expected.push(differing);
+                            contradicted_rules.insert(r);
+                        }
+                    }
+                }
+            },
+            _ => {},
+        }
+    }
+
+    let reported : Vec<Vec<String>> = actual.iter().filter_map(|e| match e { ErrClass::Contradiction(p) => Some(p.clone()), _ => None }).collect();
+    let mut exp_sorted = expected.clone(); exp_sorted.sort();
+    let mut rep_sorted = reported.clone(); rep_sorted.sort();
+    if exp_sorted != rep_sorted
+    {
+        let class =
+            if reported.len() < expected.len() { "contradiction-not-reported" }
+            else if reported.len() > expected.len() { "spurious-contradiction" }
+            else { "wrong-targets-named" };
+        out.push(Violation{ prop : "C17", sig : format!("C17:{}", class),
+            detail : format!("op {}: contradictions reported {:?}; outputs that differ from the harness's record: {:?}", inv.op_index, reported, expected) });
+    }
+    let others : Vec<&ErrClass> = actual.iter().filter(|e| match e { ErrClass::Contradiction(_) => false, _ => true }).collect();
+    if others.len() > 0
+    {
+        out.push(Violation{ prop : "C17", sig : format!("C17:unexpected-error:{}", hist::sig_of_verdict(&inv.res.verdict)),
+            detail : format!("op {}: the scenario has no failing rule, yet {:?} was reported", inv.op_index, others) });
+    }
+
+    // (d) rules that neither have an undeclared input nor depend on one are unaffected
+    // (e) dependents of a contradicted rule do not run
+    if let Ok(m) = &inv.model
+    {
+        let tainted : BTreeSet<usize> = hidden.union(&downstream_of(&inv.rules, &hidden)).cloned().collect();
+        let blocked = downstream_of(&inv.rules, &contradicted_rules);
+        let runs = inv.runs_per_rule();
+        for (idx, o) in m.outcomes.iter()
+        {
+            if blocked.contains(idx) && runs.get(idx).cloned().unwrap_or(0) > 0
+            {
+                out.push(Violation{ prop : "C17", sig : "C17:dependent-of-contradicted-rule-ran".to_string(),
+                    detail : format!("op {}: rule {} depends on a rule whose outputs contradicted its record, yet its command ran", inv.op_index, idx) });
+            }
+            if tainted.contains(idx) { continue; }
+            if let Outcome::Built(ts) = o
+            {
+                for (t, b, _) in ts.iter()
+                {
+                    if !inv.after.read(t).map(|a| *a == *b).unwrap_or(false)
+                    {
+                        out.push(Violation{ prop : "C17", sig : "C17:unrelated-rule-affected".to_string(),
+                            detail : format!("op {}: rule {} has nothing to do with the undeclared input, yet its target {} is not up to date", inv.op_index, idx, t) });
+                    }
+                }
+            }
+        }
+    }
+
+    // (c) after the undeclared input is back to its original value the original record must
+    //     still be in force: the final build succeeds with the original outputs
+    if is_last
+    {
+        if inv.res.verdict != Verdict::Ok
+        {
+            out.push(Violation{ prop : "C17", sig : format!("C17:record-not-kept:{}", hist::sig_of_verdict(&inv.res.verdict)),
+                detail : format!("op {}: the undeclared input is back to its original value, yet the build returned {}", inv.op_index, inv.res.verdict.short()) });
+        }
+        for v in oracle_c01(inv)
+        {
+            out.push(Violation{ prop : "C17", sig : v.sig.replace("C01:", "C17:after-restore:"), detail : v.detail });
+        }
+    }
+    out
+}
+
+/* the files commands may read that no rule produces (leaves and undeclared inputs) */
+fn inputs_snapshot(inv : &Inv) -> BTreeMap<String, Vec<u8>>
+{
+    let targets : BTreeSet<String> = inv.rules.iter().flat_map(|r| r.targets.clone()).collect();
+    inv.before.workspace(super::super::scen::RULER_DIR).into_iter()
+        .filter(|(p, _)| !targets.contains(p) && !p.ends_with(".rules"))
+        .map(|(p, (c, _))| (p, (*c).clone())).collect()
+}
+
+pub fn run_case(case : &Case, mut stats : Option<&mut Stats>) -> Vec<Violation>
+{
+    let mut runner = Runner::new(case);
+    let mut baseline : Option<BTreeMap<String, Vec<u8>>> = None;
+    let mut out = vec![];
+    while !runner.done()
+    {
+        let i = runner.next_op;
+        let name = match &runner.case.ops[i] { Op::Build{ sched, .. } | Op::Clean{ sched, .. } => sched.name(), _ => "" };
+        match runner.step()
+        {
+            Some(inv) =>
+            {
+                if let Some(s) = stats.as_deref_mut() { s.note_invocation(&inv, name); }
+                // "after restore": every input is back to what it was at the first successful
+                // build, so the record made then must still be in force
+                let mut restored = false;
+                if inv.is_build
+                {
+                    let now = inputs_snapshot(&inv);
+                    match &baseline
+                    {
+                        None => { if inv.res.verdict == Verdict::Ok && inv.goal.is_none() { baseline = Some(now); } },
+                        Some(b) => restored = *b == now,
+                    }
+                }
+                if restored { if let Some(s) = stats.as_deref_mut() { s.inc("c17.builds_after_restoring_the_input"); } }
+                out.extend(check_inv(&inv, &runner, restored, stats.as_deref_mut()));
+                runner.absorb(&inv);
+            },
+            None => { if let Some(s) = stats.as_deref_mut() { s.inc(&format!("userop.{}", runner.case.ops[i].kind())); } },
+        }
+    }
+    out
+}
+
+pub fn replay(case : &Case) -> Vec<(String, String)>
+{
+    run_case(case, None).into_iter().map(|v| (v.sig, v.detail)).collect()
+}
+
+fn force_ops(rng : &mut Rng, rule : &SRule, original : &BTreeMap<String, Vec<u8>>, ops : &mut Vec<Op>)
+{
+    let targets = rule.sorted_targets();
+    let n = 1 + rng.below(targets.len() as u64) as usize;
+    let mut chosen = targets.clone();
+    rng.shuffle(&mut chosen);
+    chosen.truncate(n);
+    let how = rng.below(3);
+    if how == 2
+    {
+        // clean the rule, then remove the cached copies
+        ops.push(Op::Clean{ goal : Some(targets[0].clone()), sched : SchedSpec::random(rng) });
+    }
+    for t in chosen.iter()
+    {
+        match how
+        {
+            0 => ops.push(Op::Delete{ path : t.clone() }),
+            1 => ops.push(Op::Write{ path : t.clone(), content : format!("tampered{}", rng.below(3)).into_bytes() }),
+            _ => {},
+        }
+        if let Some(c) = original.get(t)
+        {
+            ops.push(Op::DeleteCacheContent{ content : c.clone() });
+        }
+    }
+}
+
+pub fn run_one(cfg : &Config, seed : u64, k : u64, stats : &mut Stats) -> Vec<Found>
+{
+    let mut rng = Rng::derive(seed, 4);
+    let mut g = GenCfg::base(cfg.thorough);
+    g.max_rules = rng.range(1, if cfg.thorough { 10 } else { 6 });
+    g.max_ops = 0;
+    g.min_ops = 0;
+    g.end_with_build = false;
+    g.failing = false;
+    g.missing_leaves = false;
+    g.hidden = true;
+    g.user_damage = false;
+    g.rule_edits = false;
+    g.exec = rng.chance(1, 3);
+    g.shared_pool = rng.chance(1, 2);
+    let mut gen = Gen::new(seed, g);
+    let mut case = gen.case();
+    case.ops.clear();
+
+    let rules = gen.current_rules();
+    let files = gen.current_files();
+    let hidden = hidden_rules(&rules);
+    let hidden_names = gen.hidden_names();
+    stats.inc("runs");
+    if hidden.len() == 0 || hidden_names.len() == 0
+    {
+        stats.inc("c17.generated_without_hidden_input");
+        return vec![];
+    }
+
+    // original outputs (for removing cached copies)
+    let reader = { let f = files.clone(); move |p : &str| f.get(p).cloned() };
+    let original : BTreeMap<String, Vec<u8>> = match model::evaluate(&rules, None, &reader)
+    {
+        Ok(m) => m.outcomes.values().flat_map(|o| match o { Outcome::Built(ts) => ts.iter().map(|(t, b, _)| (t.clone(), b.clone())).collect::<Vec<_>>(), _ => vec![] }).collect(),
+        Err(_) => return vec![],
+    };
+
+    let victim = *rng.pick(&hidden.iter().cloned().collect::<Vec<usize>>());
+    let h = rng.pick(&hidden_names).clone();
+    let old = files.get(&h).cloned().unwrap_or(vec![]);
+    let new = { let mut n = old.clone(); n.extend_from_slice(b"'"); n };
+
+    case.ops.push(Op::Build{ goal : None, sched : SchedSpec::random(&mut rng) });
+    case.ops.push(Op::Write{ path : h.clone(), content : new });
+    force_ops(&mut rng, &rules[victim], &original, &mut case.ops);
+    case.ops.push(Op::Build{ goal : None, sched : SchedSpec::random(&mut rng) });
+    if rng.chance(1, 3)
+    {
+        // build again without touching anything: the contradiction must be reported again or the
+        // state must be consistent
+        case.ops.push(Op::Build{ goal : None, sched : SchedSpec::random(&mut rng) });
+    }
+    case.ops.push(Op::Write{ path : h.clone(), content : old });
+    // force every rule that reads an undeclared input, so that the final build has to reproduce the originals
+    for r in hidden.iter()
+    {
+        force_ops(&mut rng, &rules[*r], &original, &mut case.ops);
+    }
+    case.ops.push(Op::Build{ goal : None, sched : SchedSpec::random(&mut rng) });
+
+    if k < 3 * cfg.workers { stats.sample(case.to_j().set("undeclared_input", J::s(&h))); }
+
+    let vs = run_case(&case, Some(stats));
+    let mut found = vec![];
+    let mut seen = BTreeSet::new();
+    for v in vs
+    {
+        if !seen.insert(v.sig.clone()) { continue; }
+        let explicit = explicit_schedules(&case);
+        let base = if run_case(&explicit, None).iter().any(|x| x.sig == v.sig) { explicit } else { case.clone() };
+        let sig = v.sig.clone();
+        let test = move |c : &Case| run_case(c, None).iter().any(|x| x.sig == sig);
+        let small = minimize(&base, &test);
+        let detail = run_case(&small, None).into_iter().find(|x| x.sig == v.sig).map(|x| x.detail).unwrap_or(v.detail.clone());
+        found.push(Found{ prop : "C17".to_string(), sig : v.sig.clone(), detail : detail, explain : small.to_j(), replay : Replay::C17{ case : small } });
+    }
+    found
+}
